@@ -36,7 +36,7 @@ var codecPairs = []codecPair{
 
 func c03() []*Ob {
 	return []*Ob{
-		{Prop: "C03", ID: "C03.1", Engine: "CODEC", Floor: 7,
+		{Prop: "C03", ID: "C03.1", Engine: "CODEC", Floor: 5,
 			Desc: "writer and reader of every on-disk table agree: equal wire signatures (widths, order, loop nesting, field identity where both sides name the field) for the frozen encoder/decoder pairs of the sealed index",
 			Check: func(c *Ctx) {
 				for _, pr := range codecPairs {
@@ -94,7 +94,7 @@ func c03() []*Ob {
 					}
 				}
 			}},
-		{Prop: "C03", ID: "C03.1b", Engine: "CODEC(header)", Floor: 10,
+		{Prop: "C03", ID: "C03.1b", Engine: "CODEC(header)", Floor: 6,
 			Desc: "header accessors: for disk.IndexBlockHeader and disk.DocBlock every getter reads the same offset and width its setter writes, fields do not overlap and stay inside the header length; seq.PackDocPos and DocPos.Unpack use the same shift/mask; the LID block registry words are split with the shift/mask they were joined with",
 			Check: func(c *Ctx) {
 				for _, typ := range []string{"disk.IndexBlockHeader", "disk.DocBlock"} {
@@ -308,7 +308,7 @@ func c03() []*Ob {
 					}
 				}
 			}},
-		{Prop: "C03", ID: "C03.3", Engine: "PAIR(cache<->loader)", Floor: 6,
+		{Prop: "C03", ID: "C03.3", Engine: "PAIR(cache<->loader)", Floor: 4,
 			Desc: "each cache of frac.IndexCache is filled by exactly one loader: MIDs<-loadMIDBlock, RIDs<-loadRIDBlock, Params<-loadParamsBlock, LIDs<-lids loader, Tokens<-token block loader, TokenTable<-TableLoader.load (or the preloaded table), Registry<-readRegistry",
 			Check: func(c *Ctx) {
 				want := map[string][]string{
@@ -456,7 +456,7 @@ func c03() []*Ob {
 					}
 				}
 			}},
-		{Prop: "C03", ID: "C03.7", Engine: "SIBLING(mirror)", Floor: 4,
+		{Prop: "C03", ID: "C03.7", Engine: "SIBLING(mirror)", Floor: 3,
 			Desc: "the two posting-list iterators of a sealed fraction are mirror images: IteratorAsc walks towards lower LID blocks (blockIndex--) and IteratorDesc towards higher ones (blockIndex++); narrowLIDsRange may end the walk (tryNextBlock = false) only on a comparison with the bound that lies ahead in the direction of the walk (minLID for Asc, maxLID for Desc) — ending it on the other bound drops every posting stored in the remaining blocks",
 			Check: func(c *Ctx) {
 				for _, it := range []struct {
